@@ -52,13 +52,48 @@ PROPS = {
     "C07": {
         "world": "S", "level": "fault_enumeration",
         "rule": "Claimed clauses of C07 only (storage path and torn log records; block-level codec fuzzing is not claimed). Values come from a codec-boundary "
-                "generator (per column: constant, constant-delta, small deltas, extremes, random bits; NaN payloads, +-Inf, -0.0, subnormals, MaxFloat64; empty, long "
-                "compressible, random, 20 KB and unicode strings; boolean patterns; null patterns through partial field sets; 1-3 segments per column). Half of the cases run "
-                "write -> WAL -> (replay) -> flush -> compaction/merge -> read with reads after every op compared bit for bit with the model; the other half cut every "
-                "selected WAL record at its prefixes (all prefixes up to 512 B in the thorough tier; header boundaries + seeded offsets in quick) and require recovery to "
-                "yield exactly the acknowledged prefix. evaluations = live runs + crash states.",
-        "eval_extra": ["crash_states"], "probes": ["out-of-order file present", "compacted file (level>0) present"],
-        "assumptions": _CRASH_ASSUME[:1] + ["integers inside +-2^53 (larger ones belong to C06)", "encoder modes reached are those the generated columns select; not measured per block"],
+                "generator (val_mode 2, harness/engine/s_codec.go): per (series, field) column one pattern that selects one encoder mode (int: constant, constant delta, "
+                "small deltas, int64 extremes, 53-bit noise, alternating extremes, epoch-ns with zeros, 2^40 steps, wide float64-exact noise; float: constant, few runs, integer "
+                "ramp, cycling decimals, NaN payloads / +-Inf / -0.0 / subnormals / MaxFloat64, random bits, random decimals, slowly changing binary fractions, and writes with exactly one "
+                "NaN/+Inf/-Inf at the first, last or an inner row of an otherwise ordinary column; string: empty, short, long repetitive, random printable, 20 KB, >= 64 KiB, unicode, "
+                "binary noise, part noise part filler around the 0.85 compression-ratio threshold; bool patterns); null patterns none / alternating / leading / trailing (all-null "
+                "segments) / sparse / random / single field; column lengths 1, 2, a few, exactly / one more than a segment, several segments, 24 or 160 time slots; timestamps regular, "
+                "jittered, irregular multiples of 10^1..10^12 ns, and regions >= 2^60 ns apart. Per-run knobs = what the store's configuration file can set: "
+                "max-rows-per-segment (3 5 8 12 16 20 100 1000), string-compress-algo (snappy lz4 zstd), float-compress-algorithm (default / mlf), chunk-meta-compress-mode (0..3), "
+                "compaction-method. Half of the cases run write -> WAL -> (replay) -> flush -> compaction/merge -> read with reads after every op compared bit for bit with the model; "
+                "the other half cut every selected WAL record at its prefixes (all prefixes up to 512 B in the thorough tier; header boundaries + seeded offsets in quick) and require "
+                "recovery to yield exactly the acknowledged prefix. After every flush / compaction / merge every block of every new data file is classified from its raw bytes as "
+                "type/form/mode (hooks/immutable_dbg.go VerifBlockModes; form: one = single-value block, full = no nulls, empty = all nulls, bitmap = null bitmap at bit offset 0, "
+                "bitmap+off = at a non-zero bit offset; mode = the nibble the decoder dispatches on) and counted under 'enc ...'; 'wire ...' counts shapes of the row batches that went "
+                "through FastMarshalMultiRows / FastUnmarshalMultiRows into WAL records. evaluations = live runs + crash states.",
+        "eval_extra": ["crash_states"],
+        # Every block class the product can write on the ts-store path with settings its configuration file exposes
+        # (derived from lib/encoding/{int,float,timestamp,string,bool}.go, lib/compress/float.go, engine/immutable/column_builder.go,
+        # chunkdata_builder.go).  Not in the list, because the product cannot produce them here:
+        #  * float/*/oldgorilla (mode 1): decode-only compatibility branch of lib/encoding/float.go, no encoder writes it
+        #  * time/{bitmap,bitmap+off,empty}/*: the time column has no nulls (EncodeTime: one-value or "full" header only)
+        #  * int|float|bool/empty/<mode>: Encode{Integer,Float,Boolean}Block return at once for an all-null segment (no payload -> "none");
+        #    only the string coder encodes the (empty) offset table of an all-null segment, hence string/empty/<mode>
+        #  * */one/<mode>: a single-value block stores the raw value (CanEncodeOneRowMode: 1 row, 1..15 value bytes)
+        #  * float/*/gorilla with mlf on, float/*/mlf with mlf off: the two float selectors exclude each other (each is reached under its own setting)
+        #  * detached (CRC-prefixed) blocks, column-store fragments, colstore string V1 packing: other engine types / read-only compatibility
+        #  * BlockTag / unsigned blocks: no ts-store write path produces them
+        "probes": ["out-of-order file present", "compacted file (level>0) present"]
+                  + ["enc %s/one/raw" % t for t in ("int", "float", "bool", "string", "time")]
+                  + ["enc %s/empty/none" % t for t in ("int", "float", "bool")]
+                  + ["enc int/%s/%s" % (f, m) for f in ("full", "bitmap", "bitmap+off") for m in ("constdelta", "simple8b", "zstd", "uncompressed")]
+                  + ["enc float/%s/%s" % (f, m) for f in ("full", "bitmap", "bitmap+off") for m in ("raw", "snappy", "gorilla", "same", "rle", "mlf")]
+                  + ["enc bool/%s/bitpack" % f for f in ("full", "bitmap", "bitmap+off")]
+                  + ["enc string/%s/%s" % (f, m) for f in ("full", "bitmap", "bitmap+off", "empty") for m in ("uncompressed", "snappy", "zstd", "lz4")]
+                  + ["enc time/full/%s" % m for m in ("constdelta", "simple8b", "simple8b-scaled", "snappy", "uncompressed")]
+                  + ["enc chunkmeta/%s" % m for m in ("none", "snappy", "lz4", "self")]
+                  + ["wire " + w for w in ("batch of 1 row", "batch >= 24 rows", "row with 1 tag", "row with 1 field", "row with all 4 field types", "string len 0",
+                                           "string >= 16 KiB", "string >= 64 KiB", "float NaN", "float +-Inf", "float -0.0", "int beyond 2^53 (float64-exact)", "int negative")],
+        "assumptions": _CRASH_ASSUME[:1] + ["integers inside +-2^53, or beyond it only values a float64 holds exactly (the row codec carries numbers as float64; digit loss belongs to C06)",
+                                            "encoder modes reached are measured per block (probes 'enc type/form/mode', every class the product can write is listed and must be hit)",
+                                            "three listed findings are kept out of the generated cases so that they do not end (or kill the worker of) every run that meets them; VERIF_C07_ALL=1 lifts that: "
+                                            "out-of-order merge with max-rows-per-segment not a multiple of 8 (process death), -0.0 with float-compress-algorithm = mlf, float blocks made of zeros only with a -0.0 among them",
+                                            "rows always carry the host tag (no row without tags); time/full/snappy needs timestamps >= 2^60 ns apart inside one shard, i.e. a shard duration above 36.5 years"],
         "quick": {"runs": 500, "budget_s": 150, "workers": 14},
         "thorough": {"runs": 8000, "budget_s": 2400, "workers": 16},
     },
